@@ -56,6 +56,10 @@ def main():
         S = rng.choice([1, 1, 2, 4])
         g = Gen(rng, vars_=rng.choice([("x",), ("x", "y"), ("x", "y", "z")]), S=S,
                 arith=("add", "sub", "abs", "neg") + (("mul", "div", "sqrt", "pow") if S == 1 else ("div",)))
+        if rng.random() < 0.3:
+            g.funcs = 0.4         # sqrt exp ln log pow at exact points (also over temporal terms: the padding reaches the function)
+            g.tterm = rng.choice([0.0, 0.25])
+            g.tterm_ops = ["prev", "sprev", "once", "hist", "onceT", "histT", "next", "evT", "alwT", "ev", "alw"]
         phi = g.formula(rng.choice([1, 2, 2, 3, 3, 4]))
         vs = vars_of(phi) or ["x"]
         N = rng.choice([1, 2, 3, 4, 5, 6, 8, 12])
